@@ -518,7 +518,10 @@ def run_driver(binp, mode, inputs, timeout=1200, extra_env=None, workdir=None):
                 for line in f:
                     line = line.strip()
                     if line:
-                        outs.append(json.loads(line))
+                        try:
+                            outs.append(json.loads(line))
+                        except ValueError:
+                            break      # a line cut short: the driver died while writing it (not answered)
         return rc == 0, outs, out
     finally:
         if workdir is None:
